@@ -196,7 +196,8 @@ func AcceptOnce(ln net.Listener) (r AcceptResult) {
 // CloseAll closes the connections of the results.
 func CloseAll(rs []AcceptResult) {
 	for _, r := range rs {
-		if r.Conn != nil {
+		// (an Accept that fails may hand back a nil pointer inside the interface)
+		if r.Conn != nil && !nodeenrollment.IsNil(r.Conn) {
 			r.Conn.Close()
 		}
 	}
@@ -215,6 +216,7 @@ type AuthClient struct {
 	Preference  string                                   // certificate-preference entry value ("" = none)
 	ExtraProtos []string
 	FirstProtos []string // entries placed before the library's
+	PrefPos     int      // where the preference entry goes: 0 last, 1 first, 2 after the first request chunk
 	WaitVerdict bool     // after the handshake, wait briefly for the server's verdict on the client certificate
 }
 
@@ -232,10 +234,20 @@ func (a *AuthClient) NextProtos() []string {
 	if err != nil {
 		panic(err)
 	}
-	out := append(append([]string{}, a.FirstProtos...), np...)
+	pref := nodeenrollment.CertificatePreferenceV1Prefix + a.Preference
+	out := append([]string{}, a.FirstProtos...)
+	if a.Preference != "" && a.PrefPos == 1 {
+		out = append(out, pref)
+	}
+	for i, p := range np {
+		out = append(out, p)
+		if a.Preference != "" && a.PrefPos == 2 && i == 0 {
+			out = append(out, pref)
+		}
+	}
 	out = append(out, a.ExtraProtos...)
-	if a.Preference != "" {
-		out = append(out, nodeenrollment.CertificatePreferenceV1Prefix+a.Preference)
+	if a.Preference != "" && a.PrefPos == 0 {
+		out = append(out, pref)
 	}
 	return out
 }
